@@ -384,27 +384,30 @@ pub fn run(ctx: &mut Ctx) {
                     }
                 }
             }
-            // the series once they are stable (two equal scrapes 40 ms apart, at most 2 s)
+            // the series once they are stable: equal scrapes over a window (longer after operations whose effect arrives
+            // asynchronously - a close is noticed through QUIC's draining timer - and longer still on a slow machine), at most 4 s
+            let asynchronous = matches!(op, Op::SessClose(_) | Op::TunClose(_, _) | Op::TunOpen(_, _));
             let t0 = Instant::now();
-            let mut prev: Option<Obs> = None;
+            let probe = Instant::now();
+            let mut prev: Option<Obs> = scrape(maddr);
+            let scrape_cost = probe.elapsed();
+            let window = Duration::from_millis(if asynchronous { 300 } else { 100 }) + scrape_cost * 20;
+            let mut stable_since = Instant::now();
             let settled = loop {
-                for c in sess.iter_mut().flatten() {
-                    c.pump();
-                }
-                let cur = scrape(maddr);
-                if cur.is_some() && cur == prev && t0.elapsed() > Duration::from_millis(120) {
-                    break cur;
-                }
-                if t0.elapsed() > Duration::from_secs(2) {
-                    break cur;
-                }
-                prev = cur;
                 let t1 = Instant::now();
-                while t1.elapsed() < Duration::from_millis(40) {
+                while t1.elapsed() < Duration::from_millis(30) {
                     for c in sess.iter_mut().flatten() {
                         c.pump();
                     }
                     std::thread::sleep(Duration::from_millis(2));
+                }
+                let cur = scrape(maddr);
+                if cur != prev {
+                    stable_since = Instant::now();
+                    prev = cur.clone();
+                }
+                if (cur.is_some() && stable_since.elapsed() >= window) || t0.elapsed() > Duration::from_secs(4) {
+                    break cur;
                 }
             };
             let Some(o) = settled else {
